@@ -25,7 +25,7 @@ def main(suffix):
                 prev.append((",".join(os.path.basename(x) for x in m.get("files", [])), m.get("summary", "")[:200].replace("\n", " ")))
         wt = f"/tmp/seed_{cid}{suffix}"
         out = f"/tmp/seed_out/{cid}{suffix}"
-        txt = f"""You are working in a scratch git worktree of the Python library Hochfrequenz/ahbicht located at {wt} (it already exists; create nothing elsewhere except {out}/). Do NOT touch /repo or /verif. IMPORTANT: the virtualenv /venv has ahbicht installed editable from /repo, so every python command you run must set PYTHONPATH={wt}/src:{wt} so that YOUR worktree's code is imported, e.g.
+        txt = f"""You are working in a scratch git worktree of the Python library Hochfrequenz/ahbicht located at {wt} (it already exists; create nothing elsewhere except {out}/). Do NOT touch /repo, and do NOT read or touch /verif, /root/.claude, /root/.vp or any other directory under /tmp than your own two. IMPORTANT: the virtualenv /venv has ahbicht installed editable from /repo, so every python command you run must set PYTHONPATH={wt}/src:{wt} so that YOUR worktree's code is imported, e.g.
   cd {wt} && PYTHONPATH={wt}/src:{wt} /venv/bin/python -m pytest -p no:cacheprovider --timeout=900 -x -q
 NEVER use `git stash` (the stash is shared by all worktrees of this repository and other jobs run concurrently). To run something on the ORIGINAL code, save your change with `git -C {wt} diff > {out}/patch.diff`, undo it with `git -C {wt} apply -R {out}/patch.diff`, run, and re-apply it with `git -C {wt} apply {out}/patch.diff`.
 
